@@ -4,14 +4,22 @@ The corpora only combine serialize_all with identifiers from SIMPLE_IDENTS."""
 import re
 
 SIMPLE_IDENTS = ["Alpha", "BetaGamma", "RedGreenBlue", "Xy", "DeltaEcho", "FoxtrotGolfHotel", "India", "JulietKilo",
-                 "LimaMike", "November", "OscarPapa", "QuebecRomeoSierra", "Tango", "UniformVictor", "WhiskeyXray", "YankeeZulu"]
+                 "LimaMike", "November", "OscarPapa", "QuebecRomeoSierra", "Tango", "UniformVictor", "WhiskeyXray", "YankeeZulu",
+                 # non-ASCII letters whose case mapping is one-to-one (no ß, no dotted/dotless i)
+                 "ÉcranTitre", "ÜberGross", "ÑandúÁgil"]
 
 STYLES = ["camelCase", "PascalCase", "kebab-case", "snake_case", "SCREAMING_SNAKE_CASE", "SCREAMING-KEBAB-CASE",
           "lowercase", "UPPERCASE", "title_case", "mixed_case", "Train-Case"]
 
 
 def words(ident):
-    w = re.findall(r"[A-Z][a-z]*", ident)
+    w = []
+    for ch in ident:
+        assert ch.isalpha(), ident
+        if ch.isupper() or not w:
+            w.append(ch)
+        else:
+            w[-1] += ch
     assert "".join(w) == ident, ident
     return w
 
